@@ -49,6 +49,7 @@ def do_run(step, state, want_trace, want_snap, live):
     # (as run_many_options / the yaml loop do); it is never repaired here, so a run that modifies it leaks
     opts = live[step["preset"]]
     opts_fp = T.fingerprint(opts)
+    opts_before = copy.deepcopy(opts)
     countries = list(step["countries"])
     clist_fp = T.fingerprint(countries)
     before = T.snapshot() if want_snap else None
@@ -76,8 +77,9 @@ def do_run(step, state, want_trace, want_snap, live):
     out["secs"] = round(time.time() - t0, 2)
     out["options_unchanged"] = (T.fingerprint(opts) == opts_fp) and (T.fingerprint(countries) == clist_fp)
     if not out["options_unchanged"]:
-        out["options_before"] = opts_fp[:600]
-        out["options_after"] = T.fingerprint(opts)[:600]
+        out["options_diff"] = {str(k): [repr(opts_before.get(k, "<absent>"))[:80], repr(opts.get(k, "<absent>"))[:80]]
+                               for k in set(opts_before) | set(opts) if k not in opts or k not in opts_before
+                               or T.fingerprint(opts_before[k]) != T.fingerprint(opts[k])}
     out["results"] = {}
     for cname, interp in results.items():
         parts = T.result_parts(interp)
